@@ -229,6 +229,18 @@ func (c *Ctx) combLoop(n int, maxLeaves int, leafGen func() *Node, opt ObjOpts, 
 		c.resolveComb(batch)
 		for _, cc := range batch {
 			c.Res.Evaluations++
+			// a rule or comparison the engine itself rejects as malformed is outside "for all well-formed rules":
+			// whether the shipped parser accepts every sentence of the grammar is C20's question
+			rejected := cc.whole.E == "syn"
+			for _, o := range cc.leafObs {
+				if o.E == "syn" {
+					rejected = true
+				}
+			}
+			if rejected {
+				c.count("outside_domain_rejected_by_the_engines_parser")
+				continue
+			}
 			judge(cc)
 		}
 		batch = batch[:0]
